@@ -189,7 +189,7 @@ class C12(Lab):
         "a plain method later redefined as a state is not generated (its position in state_names is not specified); relative order is only judged among states defined once",
         "an exception raised from __set_name__ may arrive wrapped in RuntimeError on older Pythons (both accepted)",
     )
-    budgets = {"quick": 3000, "thorough": 200000}
+    budgets = {"quick": 6000, "thorough": 200000}
     time_budget = {"quick": 80, "thorough": 1200}
     exhaustive_note = "every attribute name of StateMachine (dir()) x 3 decorators; 8 illegal signature kinds x 3 decorators; 16 legal signatures x 3 decorators"
 
